@@ -423,6 +423,44 @@ func c11ClientTransportsAs(c *Ctx, rule string) {
 	// request that is turned away must not re-key a tunnel that is registered under the old Id.
 	idF := c.FieldVar("cmd/rdpgw/protocol", "Tunnel", "Id")
 	isInLoad := func(v ssa.Value) bool { return isFieldLoad(strip(v), inF) }
+	type claimPoint struct {
+		fn *ssa.Function
+		at ssa.Instruction
+	}
+	// a store made in a helper only the handler calls is judged at the helper's call sites
+	pointsOf := func(lf *ssa.Function, st ssa.Instruction) ([]claimPoint, bool) {
+		if lf == lg {
+			return []claimPoint{{lf, st}}, true
+		}
+		sites, okc := c.staticCallers(lf)
+		if !okc || len(sites) == 0 {
+			return nil, false
+		}
+		var out []claimPoint
+		for _, cs := range sites {
+			out = append(out, claimPoint{cs.Parent(), cs.(ssa.Instruction)})
+		}
+		return out, true
+	}
+	relOrHelper := func(x ssa.CallInstruction) bool {
+		if isRel(x) {
+			return true
+		}
+		if _, isGo := x.(*ssa.Go); isGo {
+			return false
+		}
+		// a helper of the handler that closes the OUT leg on all of its own exits (it defers the
+		// close before the packet loop) releases it for the caller as well
+		cal := x.Common().StaticCallee()
+		if cal == nil || !IsFirstParty(cal) || cal.Blocks == nil || len(cal.Blocks[0].Instrs) == 0 {
+			return false
+		}
+		okc, _ := releasedOnAllExits(cal, cal.Blocks[0].Instrs[0], isRel)
+		if d, isD := cal.Blocks[0].Instrs[0].(*ssa.Defer); isD && isRel(d) {
+			okc = true
+		}
+		return okc
+	}
 	for _, lf := range legacyFns {
 		lf := lf
 		nClaim, nID := 0, 0
@@ -432,25 +470,46 @@ func c11ClientTransportsAs(c *Ctx, rule string) {
 				return
 			}
 			_, f, ok := fieldOfAddr(st.Addr)
-			if !ok {
+			if !ok || (f != inF && f != idF) {
 				return
 			}
-			switch f {
-			case inF:
-				if isNil(strip(st.Val)) {
+			if f == inF && isNil(strip(st.Val)) {
+				return
+			}
+			// decided inside the helper itself when it can be (the helper tests the claim, or goes on
+			// to run the packet loop and closes the OUT leg on its own exits)
+			if lf != lg {
+				inside := false
+				if f == inF {
+					inside, _ = releasedOnAllExits(lf, st, relOrHelper)
+				} else {
+					inside, _ = mustPass(lf, st, GEq(isInLoad, anyNil))
+				}
+				if inside {
+					c.OK(rule, fmt.Sprintf("%s %s store (in helper)", shortFn(lf), f.Name()), st.Pos(), "decided inside the helper of the legacy handler")
 					return
 				}
-				nClaim++
-				ok, where := releasedOnAllExits(lf, st, isRel)
-				msg := ""
-				if where != nil {
-					msg = " (return at " + c.P.Pos(where.Pos()) + ")"
+			}
+			pts, okp := pointsOf(lf, st)
+			if !okp {
+				c.Undecided(rule, shortFn(lf)+" "+f.Name()+" store", st.Pos(), "the callers of the helper that writes Tunnel.%s cannot be enumerated", f.Name())
+				return
+			}
+			for _, pt := range pts {
+				switch f {
+				case inF:
+					nClaim++
+					ok, where := releasedOnAllExits(pt.fn, pt.at, relOrHelper)
+					msg := ""
+					if where != nil {
+						msg = " (return at " + c.P.Pos(where.Pos()) + ")"
+					}
+					c.Check(ok, rule, fmt.Sprintf("%s claim#%d out-leg closed", shortFn(lf), nClaim), st.Pos(), "every exit after the IN leg claimed the tunnel closes the OUT leg", "after the IN request has claimed the tunnel an exit is reachable that does not close the OUT leg"+msg+": the hijacked RDG_OUT_DATA connection stays open and a retry is refused")
+				case idF:
+					nID++
+					ok, why := mustPass(pt.fn, pt.at, GEq(isInLoad, anyNil))
+					c.Check(ok, rule, fmt.Sprintf("%s id-store#%d", shortFn(lf), nID), st.Pos(), "the registry key of the cached tunnel is assigned only under the claim test (transportIn == nil)", "Tunnel.Id of the cached tunnel is assigned "+why+" of transportIn == nil: a second IN request re-keys a registered tunnel and RemoveTunnel then misses its registry entry")
 				}
-				c.Check(ok, rule, fmt.Sprintf("%s claim#%d out-leg closed", shortFn(lf), nClaim), st.Pos(), "every exit after the IN leg claimed the tunnel closes the OUT leg", "after the IN request has claimed the tunnel an exit is reachable that does not close the OUT leg"+msg+": the hijacked RDG_OUT_DATA connection stays open and a retry is refused")
-			case idF:
-				nID++
-				ok, why := mustPass(lf, st, GEq(isInLoad, anyNil))
-				c.Check(ok, rule, fmt.Sprintf("%s id-store#%d", shortFn(lf), nID), st.Pos(), "the registry key of the cached tunnel is assigned only under the claim test (transportIn == nil)", "Tunnel.Id of the cached tunnel is assigned "+why+" of transportIn == nil: a second IN request re-keys a registered tunnel and RemoveTunnel then misses its registry entry")
 			}
 		})
 	}
